@@ -72,7 +72,7 @@ PLANS["C07"] = {
 }
 PLANS["C08"] = {
     "props": ["C08"], "ops": ["sgr"],
-    "mc": [mc("C08", geoms("GTiny", "GTiny"), ports({"api": 1, "chars": 1}, ALLP), display_after=False)],
+    "mc": [mc("C08", geoms("GTiny", "GTiny"), ports({"api": 1, "chars": 1}, {"api": 1, "chars": 2, "bytes": 5}), sgrmax={"quick": 300, "thorough": 9999})],
     "gen": [walk("C08", 200, 5000), walk("C08", 100, 2500, port="chars")],
     "rule": "MC: every single code 0..110 and {255,256,1000,9999}, all 38/48;5;n and ;2;r;g;b forms incl. out-of-range and truncated "
             "tails, documented pairs, from six rendition states (incl. DECSCNM); Decl_C08 is an independent per-attribute reading",
@@ -88,7 +88,7 @@ PLANS["C10"] = {
 }
 PLANS["C12"] = {
     "props": ["C12"], "ops": ["sm", "rm"],
-    "mc": [mc("C12", geoms("GSmall", "GSmall"), ports({"api": 1, "chars": 1}, ALLP))],
+    "mc": [mc("C12", geoms("GSmall", "GSmall"), ports({"api": 1, "chars": 1}, {"api": 1, "chars": 2, "bytes": 5}), modemax={"quick": 40, "thorough": 9999})],
     "gen": [walk("C12", 160, 4000), walk("C12", 80, 2000, port="chars")],
     "rule": "MC: SM/RM of every mode number 0..40 and {96,160,192,224,800,1049,2004,9999} x {private, ANSI}, and mode lists, from "
             "seven representative states (region, DECOM, DECSCNM, DECCOLM, coloured rendition)",
@@ -128,7 +128,8 @@ PLANS["C16"] = {
 }
 PLANS["C18"] = {
     "props": ["C18"], "ops": ["ht", "hts", "tbc"],
-    "mc": [mc("C18", geoms("GCols", "GCols"), ports({"api": 1, "chars": 1}, ALLP))],
+    "mc": [mc("C18", geoms("GCols", "GCols"), ports({"api": 1, "chars": 1}, ALLP)),
+           mc("C18w", geoms("GWideQuick", "GWide"), ports({"api": 1, "chars": 3}, {"api": 1, "chars": 2}))],
     "gen": [walk("C18", 160, 4000), walk("C18", 80, 2000, port="chars"), walk("C18", 40, 1000, geom="large", steps=60)],
     "rule": "MC: HT/HTS/TBC{absent,0..4,9999} from every cursor column incl. pending wrap; TV: random walks with HTS/TBC edits and "
             "width changes (resize, DECCOLM) between setting a stop and using it, widths up to 140",
